@@ -338,6 +338,16 @@ def completeness_tasks(tier):
                         continue
                     for seq0 in (0, 65531):
                         tasks.append((cap, prefetch, video, pattern, 9 if pattern == [1] else 5, maxdisp, seq0))
+    # in-order arrival with frames as large as the buffer allows (a frame needs its packets plus the first packet of the
+    # next frame to be held at once: capacity - 1 packets is the largest frame that must still come out)
+    for cap in (4, 8, 16, 128):
+        for pattern in ([cap - 1], [cap - 2, 1], [1, 3, 2]):
+            if max(pattern) + 1 > cap:
+                continue
+            for prefetch in (0, 1):
+                for video in (False, True):
+                    for seq0 in (0, 65531 if cap < 128 else 65000):
+                        tasks.append((cap, prefetch, video, pattern, 5, 0, seq0))
     return tasks
 
 
